@@ -99,7 +99,7 @@ ExprItems(tier) ==
 (* "elem": r = f(arg); the expected row is printed as (value of r, f, value of arg) *)
 ElemItems(tier) ==
     {Item("elem", Prog(ExprComps, <<Eq(Ref("r"), Call(f, <<a>>))>>, <<>>, <<>>), {}) :
-        f \in Elementary, a \in {Ref("x"), Ref("time"), Bin("*", Ref("x"), Lit(Q(1, 2))), Bin("+", Ref("y"), Ref("p")), Bin("/", Ref("x"), ILit(4))}}
+        f \in Elementary, a \in {Ref("x"), Ref("time"), Bin("*", Ref("x"), Lit(Q(1, 2))), Bin("+", Ref("y"), Ref("p")), Bin("*", Ref("x"), Lit(Q(1, 4))), Un("-", Ref("y"))}}
 
 -----------------------------------------------------------------------------
 (* "eqs": equation forms over vectors z, w of size n and matrices A, B of shape r x c *)
